@@ -160,6 +160,8 @@ class TgModel:
         lo, hi, changed = self._span_after(tier)
         if changed and mode == "error":
             return "TextgridStateAutoModified", None
+        if index is not None and not isinstance(index, int):
+            return RAISE, None  # a plain list rejects it too (list.insert -> TypeError)
 
         def apply():
             if index is None:
